@@ -1,6 +1,7 @@
 package main
 
 import (
+	"hash/crc32"
 	"bytes"
 	"encoding/binary"
 	"fmt"
@@ -23,7 +24,11 @@ func streamEval(c *Ctx, cs Case, prop string) {
 	var db signature.SignatureDatabase
 	var err error
 	t0 := time.Now()
-	panicked, pmsg := safely(func() { db, err = signature.ReadSignatureDatabase(bytes.NewReader(b)) })
+	// the reader kind is derived from the input so that replays are exact; the source is destroyed
+	// before the decoded database is looked at (no aliasing of the input)
+	src := newSrcReader(readerKinds[(len(b)+int(crc32.ChecksumIEEE(b)))%len(readerKinds)], b)
+	panicked, pmsg := safely(func() { db, err = signature.ReadSignatureDatabase(src.r) })
+	src.clobber()
 	dt := time.Since(t0)
 	goObs := "err"
 	var reenc []byte
@@ -34,6 +39,7 @@ func streamEval(c *Ctx, cs Case, prop string) {
 		goObs = "ok " + goDbStr(db) + " reenc=" + hx(reenc)
 	}
 	c.Count(cs.Key(), len(b) > 0, prop+"/"+cls+"/"+strings.SplitN(goObs, " ", 2)[0])
+	c.Class("reader=" + src.kind)
 	if len(b) < 200 {
 		c.Sample(cs)
 	}
@@ -278,6 +284,28 @@ func c07Gen(c *Ctx) {
 	for i := 0; i < c.N(500, 20000); i++ {
 		h := genHistory(c, u, c.N(10, 30))
 		ops := h["ops"].([]interface{})
+		// C07 also reaches what C09 deliberately leaves out: lists holding one entry more than once
+		// (decoded, or built through the list-level API from the DER and the PEM form of one
+		// certificate) and PEM handed to SignatureList.AppendBytes directly
+		o0, o1 := hx(u.owners[0]), hx(u.owners[1])
+		var pre []interface{}
+		switch i % 6 {
+		case 1:
+			pre = []interface{}{fmt.Sprintf("LM,%s,%s", hx(tX509), o0+":"+hx(u.data[5])), "E"}
+		case 2:
+			pre = []interface{}{fmt.Sprintf("LM,%s,%s", hx(tX509), o0+":"+hx(u.data[4])+"+"+o0+":"+hx(u.data[5])+"+"+o1+":"+hx(u.data[6])), "E",
+				fmt.Sprintf("R,%s,%s,%s", hx(tX509), o0, hx(u.data[4])), "E"}
+		case 3:
+			h["start"] = hx(encodeList(tSHA256, nil, 48, [][2][]byte{{u.owners[0], u.data[0]}, {u.owners[1], u.data[1]}, {u.owners[0], u.data[0]}}))
+			pre = []interface{}{fmt.Sprintf("R,%s,%s,%s", hx(tSHA256), o0, hx(u.data[0])), "E"}
+		case 4:
+			h["start"] = hx(encodeList(tX509, nil, len(u.data[4])+16, [][2][]byte{{u.owners[0], u.data[4]}, {u.owners[0], u.data[6]}, {u.owners[0], u.data[4]}, {u.owners[0], u.data[4]}}))
+			pre = []interface{}{fmt.Sprintf("R,%s,%s,%s", hx(tX509), o0, hx(u.data[4])), "E", fmt.Sprintf("R,%s,%s,%s", hx(tX509), o0, hx(u.data[4])), "E"}
+		}
+		if i%12 == 5 {
+			pre = []interface{}{fmt.Sprintf("LM,%s,-", hx([][]byte{tSHA256, tX509}[(i/12)%2])), "E"} // known finding F20
+		}
+		ops = append(pre, ops...)
 		h["ops"] = append(ops, "E")
 		historyShrunk(c, h, "C07")
 		if c.NFailures() >= 8 {
@@ -362,7 +390,7 @@ func c08Gen(c *Ctx) {
 
 func init() {
 	register("C07", &PropDef{
-		Rule:   "well-formed streams: 0..6 (thorough 12) lists over X.509 (any certificate size, 0-5 entries), SHA-256 (up to 40 entries), externally-managed, plus valid-but-undecodable / unknown / headered lists in a quarter of the streams; the .esl files and captured variables of the repository; databases built by random append/remove/append-list histories and then encoded and decoded. Non-trivial: non-empty stream; distinct = distinct byte strings / histories.",
+		Rule:   "well-formed streams: 0..6 (thorough 12) lists over X.509 (any certificate size, 0-5 entries), SHA-256 (up to 40 entries), externally-managed, plus valid-but-undecodable / unknown / headered lists in a quarter of the streams; the .esl files and captured variables of the repository; databases built by random append/remove/append-list histories and then encoded and decoded, two thirds of them starting with a list that holds one entry more than once (decoded [A,B,A] / [a,b,a,a], or built by SignatureList.AppendBytes from the DER and the PEM form of one certificate) or with PEM handed to the list-level API, followed by removals of that entry. Every stream is decoded through a bytes.Reader, a bytes.Buffer or a one-byte-at-a-time reader (chosen by a checksum of the input) over a private copy that is overwritten before the decoded database is inspected. Non-trivial: non-empty stream; distinct = distinct byte strings / histories.",
 		Assume: []string{"`handled` list types are X.509, SHA-256 (size 48) and externally-managed (size 17) with an empty header, as in the decoder's switch"},
 		Eval:   c07Eval, Gen: c07Gen,
 	})
